@@ -838,6 +838,54 @@ let run_case (t : string list) : string =
           n_limit = None; n_known = []; n_active = []; n_events = [] }
       in
       if NetModel.adversarial_hello_accepted b (n_of_string sni) (n_of_string certname) then "accepted" else "rejected"
+  | ("vserver" | "vclient" | "peerid" | "hssig") :: _ as toks ->
+      let kind = Stdlib.List.hd toks in
+      let kvs =
+        Stdlib.List.filter_map
+          (fun s -> match Stdlib.String.index_opt s '=' with
+             | Some i -> Some (Stdlib.String.sub s 0 i, Stdlib.String.sub s (i + 1) (Stdlib.String.length s - i - 1))
+             | None -> None)
+          (Stdlib.List.tl toks)
+      in
+      let g k d = match Stdlib.List.assoc_opt k kvs with Some v -> v | None -> d in
+      let name_n s = n_of_string (Stdlib.String.sub s 1 (Stdlib.String.length s - 1)) in
+      let names k = Stdlib.List.map name_n (Stdlib.List.filter (fun x -> x <> "") (Stdlib.String.split_on_char ',' (g k ""))) in
+      let keyn s = if s = "e" then n_of_int 99 else n_of_string s in
+      let k = g "k" "1" in
+      let by = g "by" "self" in
+      let signer = if by = "self" then k else by in
+      let eku = g "eku" "none" in
+      let role_server = kind <> "vclient" in
+      let usage_ok =
+        eku = "none" || eku = "both" || (role_server && eku = "server") || ((not role_server) && eku = "client")
+      in
+      let c =
+        { Tls.c_wellformed = g "wf" "ok" = "ok";
+          c_spki_alg = (if k = "e" then Tls.OtherAlg else Tls.Ed25519);
+          c_key = keyn k;
+          c_sig_alg = (if signer = "e" then Tls.OtherAlg else Tls.Ed25519);
+          c_signed_by = keyn signer;
+          c_names = names "names";
+          c_valid_now = g "valid" "ok" = "ok";
+          c_usage_ok = usage_ok }
+      in
+      (match kind with
+       | "vserver" ->
+           let accept = names "accept" in
+           let sni = name_n (g "sni" "n0") in
+           let accepted = if Stdlib.List.exists (fun x -> x = sni) accept then [ sni ] else [] in
+           let pin = g "pin" "-" in
+           let ok =
+             if pin = "-" then Tls.verify_cert accepted c else Tls.verify_cert_pinned (keyn pin) accepted c
+           in
+           if ok then "ok" else "err"
+       | "vclient" -> if Tls.verify_cert (names "accept") c then "ok" else "err"
+       | "peerid" -> (match Tls.peer_id c with Some x -> "ok " ^ string_of_n x | None -> "err")
+       | _ ->
+           let scheme = if g "scheme" "ed" = "ed" then Tls.Ed25519 else Tls.OtherAlg in
+           let tr = if g "mut" "0" = "1" || g "othermsg" "0" = "1" then N0 else n_of_int 1 in
+           let p = { Tls.p_scheme = scheme; p_key = keyn (g "signer" "1"); p_transcript = tr } in
+           if c.Tls.c_wellformed && Tls.verify_hs c p (n_of_int 1) then "ok" else "err")
   | [ "version"; v ] ->
       (match Wire.version_new (n_of_string v) with
        | Base.Ok v -> "OK " ^ string_of_n v
